@@ -3,6 +3,7 @@
 package monitors
 
 import (
+	"errors"
 	"bytes"
 	"fmt"
 	"sort"
@@ -54,6 +55,11 @@ func Decode(evs []world.Ev, sess int) (items []Item, restOut, restIn []byte) {
 			items = append(items, Item{Ev: e})
 		case world.SNIn, world.SNOut:
 			p, err := snref.Parse(e.B)
+			if err == nil && p != nil && p.Type == snref.CONNECT && p.ProtoID != 1 {
+				// reserved protocol ID (specification 5.3.8): bisquitt's decoder rejects the datagram,
+				// so for every oracle it is an undecodable one
+				err = errReservedProtoID
+			}
 			if ended && e.Kind == world.SNIn && e.Fault == "" {
 				e.Fault = "drop" // sent to a session that no longer exists: never delivered
 			}
@@ -297,6 +303,8 @@ func qosMinus1Source(items []Item, mq Item) bool {
 	}
 	return false
 }
+
+var errReservedProtoID = errors.New("CONNECT with a reserved protocol ID")
 
 // ---------------------------------------------------------------- C08 / C09
 
